@@ -281,17 +281,18 @@ def domain_runs(ctx, cvxopt, rng):
     """F refuses points outside a convex domain (a shrunken box): the solver must backtrack, never return an x
     outside the domain, never raise"""
     from cvxopt import matrix, solvers, log, div, spdiag, blas
-    n_runs = 6 if ctx.quick() else 80
+    n_runs = 30 if ctx.quick() else 200
     for i in range(n_runs):
         n = rng.randint(1, 3)
         rho = 0.35 + 0.6 * rng.random()            # domain: |x_i| < rho  (subset of |x_i| < 1)
-        cc = matrix([rng.uniform(-3, 3) for _ in range(n)])
+        cc = matrix([rng.uniform(-1, 1) * rng.choice([3, 30, 300]) for _ in range(n)])     # steep objectives make the line search leave dom F
         refused = [0]; calls = [0]
-        def F(x=None, z=None):
+        form = ('None', 'pair')[i % 2]             # both documented ways of refusing a point: None and (None, None)
+        def F(x=None, z=None, form=form):
             if x is None: return 0, matrix(0.0, (n, 1))
             calls[0] += 1
             if max(abs(x)) >= rho:
-                refused[0] += 1; return None
+                refused[0] += 1; return None if form == 'None' else (None, None)
             u = rho**2 - x**2
             f = matrix(-sum(log(u)) + blas.dot(cc, x))
             Df = (div(2 * x, u) + cc).T
@@ -300,8 +301,8 @@ def domain_runs(ctx, cvxopt, rng):
         try:
             r = quiet(solvers.cp, F, options={'show_progress': False})
         except Exception as e:
-            ctx.violation('c10:domain-exception:%s' % type(e).__name__, 'cp with a domain-restricted F raised %s: %s' % (type(e).__name__, e),
-                          {'n': n, 'rho': rho, 'c': list(cc)}); continue
+            ctx.violation('c10:domain-exception:%s' % type(e).__name__, 'cp with a domain-restricted F (refusing by %s, %d refusals) raised %s: %s' % (
+                              'None' if form == 'None' else '(None, None)', refused[0], type(e).__name__, e), {'n': n, 'rho': rho, 'c': list(cc), 'refusal': form}); continue
         x = r['x']
         if x is not None and max(abs(x)) >= rho:
             ctx.violation('c10:x-outside-domain', 'cp returned x outside dom F (|x|max=%g, rho=%g)' % (max(abs(x)), rho),
